@@ -1,6 +1,7 @@
 (* c18 model driver: one case per line
      <variant> <name> <validity> <value> [<context_flags>|- [<fill>]]
      R <arch> <fill> <len>   (MinidumpContext::read: the context type chosen; Driver.run_read)
+     W <variant> <n1>=<v1>,... [<fill>]   (a sequence of set_register calls; Driver.run_writes)
    context_flags: written into the model's context_flags field; fill: every 32-bit word of the base context
    (so every integer field holds the word repeated to its width); absent = the pattern base (sentinel)
    name: `-` = empty string, `~` = a space; validity: `A` or `S:n1,n2,...` (`S:` = empty set)
@@ -18,6 +19,16 @@ let show_cell (c : cell) : string =
   | CNames l -> String.concat "," (List.map string_of_name l)
   | CSorted l -> String.concat "," (List.sort compare (List.map string_of_name l))
   | CPairs l -> String.concat "," (List.map (fun (n, x) -> string_of_name n ^ ":" ^ string_of_z x) l)
+  | CBits l -> String.concat "" (List.map (fun b -> if b then "1" else "0") l)
+let run_writes_line variant ops fill =
+  let ops = List.map (fun p -> match String.index_opt p '=' with
+      | Some i -> (name_of_string (String.sub p 0 i), z_of_string (String.sub p (i + 1) (String.length p - i - 1)))
+      | None -> failwith "name=value") (String.split_on_char ',' ops) in
+  match run_writes (name_of_string variant) ops fill with
+  | None -> print_endline "E;;unknown context variant"
+  | Some [wa; ch; sp; ip] ->
+    print_endline ("wa=" ^ show_cell wa ^ ";ch=" ^ show_cell ch ^ ";sp=" ^ show_cell sp ^ ";ip=" ^ show_cell ip)
+  | Some _ -> print_endline "P;;model: a write panicked"
 let () =
   try
     while true do
@@ -25,6 +36,8 @@ let () =
       if String.length line > 0 && line.[0] <> '#' then begin
         let opt t = if t = "-" then None else Some (z_of_string t) in
         match (match split_ws line with
+               | ["W"; variant; ops] -> run_writes_line variant ops None; Some ("", "", "", "", None, None)
+               | ["W"; variant; ops; fill] -> run_writes_line variant ops (Some (z_of_string fill)); Some ("", "", "", "", None, None)
                | ["R"; arch; fill; len] ->
                  let show = function CNum x -> string_of_z x | _ -> "P" in
                  print_endline (match run_read (z_of_string arch) (z_of_string fill) (z_of_string len) with
